@@ -114,6 +114,13 @@ Theorem int_cmp_old_refuted :
 Proof. exact CmpProofs.int_cmp_trunc_refuted. Qed.
 Print Assumptions int_cmp_old_refuted.
 
+(* 14. the comparison code of the working tree has the shapes Values.v models (re-read on every run) *)
+Theorem model_shapes_match_source :
+  int_cmp_threeway = true /\ float_cmp_shape_ok = true /\ seq_cmp_shape_ok = true /\ tree_cmp_shape_ok = true /\
+  cmp_predicates_shape_ok = true /\ cmp_default_shape_ok = true.
+Proof. exact CmpProofs.source_shapes. Qed.
+Print Assumptions model_shapes_match_source.
+
 (* ------------------------------------------------------------------ non-vacuity of `dom` *)
 Example dom_inhabited_scalars :
   dom SInt (VInt 4294967296) /\ dom SInt (VInt (-9223372036854775808)) /\
